@@ -68,6 +68,8 @@ def make(cfg_in):
             miss = c.bool_var('R%d.miss' % i) if cfg['missing'] == 'sym' else False
             v = None if (miss is not False and bool(miss)) else sym_string(
                 c, 'R%d' % i, cfg['minlen'], cfg['maxlen'], cfg.get('lens_r') or cfg['lens'], cfg['alphabet'])
+            if i in (cfg.get('concrete_rows_r') or {}):
+                v = SymStr.lift(cfg['concrete_rows_r'][i])     # a fixed context row
             rrows.append((11 + i, v, 'R%d.x' % i, 'R%d.y' % i))
         cols = ['id', 'attr', 'x', 'y']
         s = dict(entry=cfg['entry'], filter=cfg['filter'], measure='EDIT_DISTANCE', threshold=tau,
@@ -76,6 +78,7 @@ def make(cfg_in):
                  n_jobs=symdata.choice(c, 'nj', cfg['n_jobs']), q=q, padding=padding, return_set=rs,
                  allow_empty=True, l_key='id', r_key='id', l_attr='attr', r_attr='attr',
                  l_out_attrs=None, r_out_attrs=None, l_out_prefix='l_', r_out_prefix='r_',
+                 warmup_q=cfg.get('warmup_q'),
                  L={'columns': cols, 'rows': lrows, 'index': list(range(len(lrows)))},
                  R={'columns': cols, 'rows': rrows, 'index': list(range(len(rrows)))})
 
